@@ -10,10 +10,10 @@ import (
 
 func init() {
 	register(&propDef{
-		ID:    "C08",
-		Level: "other",
+		ID:      "C08",
+		Level:   "other",
 		Explain: "Forwarding-header rules decided on every path of proxy.addHeaders / addResponseHeaders / ServeHTTP: (A1) the authoritative headers (configured client-IP header, configured TLS header) are written with Set, under no condition that depends on a header the client sent, with a value derived only from RemoteAddr / r.TLS / configuration; the TLS header is Set on the r.TLS != nil edge and Del'd on the other (exhaustive); (A2) the default-if-absent headers (X-Real-Ip, X-Forwarded-Proto/-Port/-Host) are written only under Get(sameKey) == \"\" and their values derive from the connection or the request's Host; (O1) in ServeHTTP no store to r.Host can reach the call that derives the forwarding headers (they must describe the host the client asked for, also for host= routes); (X1) every test of the Upgrade header in package proxy compares against the same constant set; (X2) on the websocket edge X-Forwarded-For is Set to prior + \", \" + peer with the peer last; (S1) Strict-Transport-Security is written only under r.TLS != nil, on the response; (R1) the request-id header is Set from the generator under RequestID != \"\" only; (P1) nothing in package proxy separates host and port of Request.Host / RemoteAddr with a bare ':' search (IPv6 literals) — net.SplitHostPort is used. (X3) the websocket X-Forwarded-For branch and the tunnel decision depend on the same request header (Upgrade only). (A3) the for= element fabio itself puts into Forwarded derives from RemoteAddr and from no client header; Not decided: the textual format of Forwarded and of the port/protocol values (string contents).",
-		Run:   runC08,
+		Run:     runC08,
 		Trusted: []string{"net/http sets Request.RemoteAddr to the peer's ip:port and Request.TLS iff the connection used TLS", "httputil.ReverseProxy appends the peer address to X-Forwarded-For for non-upgrade requests"},
 		Mutants: []mutant{
 
